@@ -2,6 +2,7 @@ import S2T.Drv.Util
 import S2T.Gen.Router
 import S2T.Gen.Archive
 import S2T.Model.ArchiveGuard
+import S2T.Model.ArchiveAttrs
 namespace S2T.Drv.C09
 open Lean S2T.Drv S2T.Archive
 open S2T.Router (Str)
@@ -158,7 +159,12 @@ def sevenOp (j : Json) : Except String Json := do
   let lim ← limits j
   let es ← getArr j "entries"
   let entries ← es.toList.mapM fun e => do
-    return ({ name := chars (← getStr e "name"), emptyStream := ← getBool e "empty", attrDir := ← getBool e "attrdir" } : RawEntry)
+    -- with an attribute word ("attr": the uint32 the writer put into the header) the model is handed the WHOLE word
+    -- and keeps of it what `_build_file_list` keeps (`AttrEntry.toRaw`); without one, the bit itself
+    match e.getObjValAs? Nat "attr" with
+    | .ok w => return (({ name := chars (← getStr e "name"), emptyStream := ← getBool e "empty", attributes := w } : AttrEntry).toRaw)
+    | .error _ =>
+      return ({ name := chars (← getStr e "name"), emptyStream := ← getBool e "empty", attrDir := ← getBool e "attrdir" } : RawEntry)
   let sizes ← natArr j "file_sizes"
   let efs : List Bool := match getArr j "empty_files" with
     | .ok a => a.toList.map (fun x => x.getBool?.toOption.getD false)
